@@ -266,6 +266,9 @@ func checkC05(c *Ctx, r *Report) {
 			construct := fmt.Sprintf("insert#%d in %s", countInsertsBefore(fn, mu), c.funcKey(fn))
 			ok2, why := insertGuarded(c, fn, mu, collisionFns)
 			r.Check(ok2, "K2", construct, c.instrPos(mu), why)
+			if ok2 {
+				checkReplacementTable(c, r, fn, mu, construct)
+			}
 			ok3, why3 := keyIsDestination(c, fn, mu)
 			if ok3 {
 				r.Pass("K1", construct, c.instrPos(mu), why3)
@@ -441,6 +444,73 @@ func insertGuarded(c *Ctx, fn *ssa.Function, mu *ssa.MapUpdate, collisionFns map
 		return true, found
 	}
 	return false, "insert into the destination map is not dominated by a lookup on the same map whose occupied edge returns the content-collision error: an occupied destination would be silently replaced"
+}
+
+// guardingLookup returns the comma-ok lookup on the same map that dominates
+// the insert (the collision check).
+func guardingLookups(fn *ssa.Function, mu *ssa.MapUpdate) []*ssa.Lookup {
+	var out []*ssa.Lookup
+	forEachInstr(fn, func(in ssa.Instruction) {
+		lk, ok := in.(*ssa.Lookup)
+		if ok && lk.CommaOk && sameValue(lk.X, mu.Map) && instrDominates(lk, mu) {
+			out = append(out, lk)
+		}
+	})
+	return out
+}
+
+// checkReplacementTable (K2b): with the guarding lookup bound to "occupied by
+// an entry of type T", the insert may be live only for T = implicit dir, and
+// only where the inserted entry is a directory ("only an explicitly declared
+// directory may take the place of an implied one").
+func checkReplacementTable(c *Ctx, r *Report, fn *ssa.Function, mu *ssa.MapUpdate, construct string) {
+	lks := guardingLookups(fn, mu)
+	if len(lks) == 0 {
+		return
+	}
+	insertsDir := insertedEntryMayBeDir(fn, mu)
+	for _, typ := range preparedTypes {
+		ev := newEvaluator(c)
+		ev.Bind = map[ssa.Value]AV{}
+		occ := newAObj("occupant")
+		occ.Fields["Type"] = cStr(typ)
+		for _, lk := range lks {
+			for _, ref := range *lk.Referrers() {
+				if ex, ok := ref.(*ssa.Extract); ok {
+					if ex.Index == 0 {
+						ev.Bind[ex] = avObj{occ}
+					} else {
+						ev.Bind[ex] = cBool(true)
+					}
+				}
+			}
+		}
+		fr := ev.Explore(fn, make([]AV, len(fn.Params)))
+		live := fr != nil && fr.Live(mu.Block())
+		allowed := typ == typeImplicitDir && insertsDir
+		cons := fmt.Sprintf("%s [occupied by %q]", construct, typ)
+		if live && !allowed {
+			r.Fail("K2b", cons, c.instrPos(mu), fmt.Sprintf("with the destination already occupied by an entry of type %q the insert is still reachable: the occupant would be silently replaced (only an implied directory may be replaced, and only by a directory)", typ))
+		} else {
+			r.Pass("K2b", cons, c.instrPos(mu), fmt.Sprintf("insert reachable=%v", live))
+		}
+	}
+}
+
+// insertedEntryMayBeDir: the entry stored by this insert can be a directory
+// (its Destination is produced by the directory normaliser somewhere in fn).
+func insertedEntryMayBeDir(fn *ssa.Function, mu *ssa.MapUpdate) bool {
+	found := false
+	forEachInstr(fn, func(in ssa.Instruction) {
+		if call, ok := in.(*ssa.Call); ok && calleeIs(call, filesPath, "", "NormalizeAbsoluteDirPath") {
+			for _, ref := range *call.Referrers() {
+				if _, isStore := ref.(*ssa.Store); isStore {
+					found = true
+				}
+			}
+		}
+	})
+	return found
 }
 
 func reachesCollisionReturn(start *ssa.BasicBlock, avoid ssa.Instruction, collisionFns map[*ssa.Function]bool) bool {
